@@ -85,8 +85,8 @@ type containerWriter interface {
 	// name.
 	submitGroupedValue(name string, t reflect.Type, v reflect.Value)
 
-	// submitDecoratedGroupedValue submits a decorated value to the value group
-	// with the provided name.
+	// submitDecoratedGroupedValue submits the decorated slice of the value
+	// group with the provided name and element type.
 	submitDecoratedGroupedValue(name string, t reflect.Type, v reflect.Value)
 }
 
@@ -111,7 +111,8 @@ type containerStore interface {
 	// The order in which the values are returned is undefined.
 	getValueGroup(name string, t reflect.Type) []reflect.Value
 
-	// Retrieves all decorated values for the provided group and type, if any.
+	// Retrieves the decorated slice for the provided group and element type,
+	// if any.
 	getDecoratedValueGroup(name string, t reflect.Type) (reflect.Value, bool)
 
 	// Returns the providers that can produce a value with the given name and
